@@ -85,6 +85,11 @@ def build_alphabet(m, ents, rng=None, small=False):
                   X.call("path_to_dict", path=p, _type=None, config=c))
         add("path_to_dict", X.call("path_to_dict", p, m.natural_type(s), c0))
     add("SidPath", X.call("Sid", path="/nowhere/at/all.ma", config=cfgs[0]))
+    # path() of a Sid that was built from a path under some configuration, and of the equal string-built Sid
+    for (s, c0), p in sorted(paths.items()):
+        add("path", X.meth(X.call("Sid", path=p, config=c0), "path"))
+        add("path", X.meth(X.call("Sid", path=p, config=c0), "path", cfgs[0]))
+    add("path", X.meth(X.sid(f), "path"))
     for s in (f, d, "foo/bar", star2, segs[0]):
         S = X.sid(s)
         add("path", X.meth(S, "path"))
